@@ -31,7 +31,7 @@ func c02(c *Ctx) (*report.Result, error) {
 	if f := resolve(c, res, "O2.2", anchor{"proxy", "*proxyStreamSender", "sendReplicationMessages"}); f != nil {
 		checkAllocator(c, res, f)
 		checkRawTaskIDRewrite(c, res, "O2.3", f)
-		res.RuleDoc["O2.10"] = "no stream worker indexes the last element of an empty slice: every x[len(x)-1] in proxy_streams.go is dominated by a test giving len(x) >= 1, or x is a group of a map filled only with append results - a panic in a stream worker is not recovered and takes the process down"
+		res.RuleDoc["O2.10"] = "no stream worker indexes the last element of an empty slice: every x[len(x)-1] in proxy_streams.go is dominated by a test giving len(x) >= 1, or x is a group of a map filled only with append results - a panic in a stream worker is not recovered and takes the process down, and the restart re-delivers tasks that were already sent"
 		checkLastElementGuarded(c, res, "O2.10", []string{"proxy/proxy_streams.go"}, 2)
 	}
 	if f := resolve(c, res, "O2.4", anchor{"proxy", "*proxyStreamReceiver", "recvReplicationMessages"}); f != nil {
@@ -51,7 +51,7 @@ func c02(c *Ctx) (*report.Result, error) {
 	res.Explanation = "SSA of proxy.NewClusterConnection (which shard count the RoutingParameters closure selects for the server that forwards to each cluster) and of the chain buildProxyServer -> NewAdminServiceProxyServer -> StreamWorkflowReplicationMessages -> handleStream -> streamRouting -> proxyStreamReceiver (the count and the reverse client reach the receiver unchanged), of recvReplicationMessages (arguments of WorkflowIDToHistoryShard, the retry loop's bookkeeping) and of proxyStreamSender.sendReplicationMessages (who writes nextProxyTaskID, by how much, under which lock, followed by which ring append; which values the id fields and the exclusive high watermark receive). Necessary shapes of 'each task once, to the owning shard, with strictly increasing ids and a covering watermark'; exactly-once, ordering and watermark monotonicity under interleavings of several sources are not decided. Observation (no rule): tasks without RawTaskInfo / namespace id / workflow id are dropped from the grouping without an error."
 	res.Assumptions = []string{"servercommon.WorkflowIDToHistoryShard is Temporal's shard hash"}
 	res.RuleDoc["O2.7"] = "no swallowed error in the files the mechanism lives in: no function returns a nil error on a path on which an error obtained from a call is known to be non-nil (io.EOF from a stream Recv, the normal end of a receive loop, is the one accepted idiom)"
-	res.RuleDoc["O2.11"] = "no dereference of a value on the side on which it was just found nil, in the stream workers' files (a contradiction rule: `p.f != nil || p.f.g` for `&&`, a failed comma-ok assertion's value) - a panic there is not recovered and ends every stream of the process"
+	res.RuleDoc["O2.11"] = "no dereference of a value on the side on which it was just found nil, in the stream workers' files (a contradiction rule: `p.f != nil || p.f.g` for `&&`, a failed comma-ok assertion's value) - a panic there is not recovered and ends the process; after the restart the source re-sends everything above its acknowledged level, so tasks that had already been delivered are delivered again"
 	checkNoDerefOfKnownNil(c, res, "O2.11", []string{"proxy/proxy_streams.go", "proxy/intra_proxy_router.go", "proxy/shard_manager.go", "proxy/admin_stream_transfer.go"}, 40)
 	checkNoSwallowedErrors(c, res, "O2.7", []string{"proxy/proxy_streams.go", "proxy/shard_manager.go"})
 	res.RuleDoc["O2.8"] = "relay loops pass every message on: in every loop that takes messages from a stream or channel and forwards them, no path from the take to the next take avoids every stream Send / channel send / Deliver*ToShardOwner (a forwarding loop that runs zero times, the wrong-kind edges of a type assertion and a return that ends the stream are not bypasses; the ack aggregator sendAck is the reviewed exception)"
